@@ -364,6 +364,30 @@ nd::harnesses! {
         }
     }
 
+    /// Payloads whose size exceeds their alignment (a 3-byte struct, a pair of u64, five u16) go through COption and
+    /// CResult and back without changing a single byte.
+    #[kani::unwind(8)]
+    fn c12_option_result_wide_payloads() {
+        let t3: T3 = nd::any();
+        let pair: (u64, u64) = (nd::any(), nd::any());
+        let five: [u16; 5] = nd::any();
+        let c: COption<T3> = Some(t3).into();
+        assert!(Option::<T3>::from(c) == Some(t3));
+        let mut c: COption<(u64, u64)> = Some(pair).into();
+        assert!(c.take() == Some(pair));
+        let c: COption<(u64, u64)> = Some(pair).into();
+        assert!(Option::<(u64, u64)>::from(c) == Some(pair));
+        let c: COption<[u16; 5]> = Some(five).into();
+        let back = Option::<[u16; 5]>::from(c).unwrap();
+        let mut i = 0;
+        while i < 5 { assert!(back[i] == five[i]); i += 1; }
+        let ok: bool = nd::any();
+        let r: Result<(u64, u64), T3> = if ok { Ok(pair) } else { Err(t3) };
+        let cr: CResult<(u64, u64), T3> = r.into();
+        let rb: Result<(u64, u64), T3> = cr.into();
+        assert!(rb == if ok { Ok(pair) } else { Err(t3) });
+    }
+
     /// COption with a drop-counted payload: every conversion moves it, nothing is dropped or
     /// duplicated until the end, then exactly once.
     fn c12_coption_moves() {
